@@ -805,14 +805,20 @@ def edit_stream(ctx, pool, n):
     shapes = [(2,), (2, 2), (1, 2)]
     for k in range(n):
         shape = shapes[k % len(shapes)]
-        a = gen_cfg(rng, shape, header_mode="mixed")
-        b = gen_cfg(rng, shape, header_mode="mixed")
         kind = ["labels", "headers", "tablename", "sheetname"][k % 4]
+        nm = None
+        if kind == "sheetname":
+            # a sheet name only shows in a reference when the table name alone does not identify the target: two sheets
+            # whose tables share their names
+            shape = (2, 2) if k % 8 < 4 else (1, 2)
+            nm = "dup_across"
+        a = gen_cfg(rng, shape, name_mode=nm, header_mode="mixed")
+        b = gen_cfg(rng, shape, name_mode=nm, header_mode="mixed")
         # b differs from a only in the edited aspect
         merged = json.loads(json.dumps(a))
         for si, s in enumerate(merged):
             if kind == "sheetname":
-                s["name"] = b[si]["name"]
+                s["name"] = b[si]["name"] if b[si]["name"] != s["name"] else s["name"] + " (renamed)"
             for ti, t in enumerate(s["tables"]):
                 if kind == "tablename":
                     t["name"] = b[si]["tables"][ti]["name"]
@@ -848,6 +854,55 @@ def edit_stream(ctx, pool, n):
                     fails.append((f"stale-name-cache:{kind}", case,
                                   f"after editing {kind} the reference prints {s_!r}; after a cache refresh {f_!r}"))
         ctx.dist("edit:" + kind)
+    return fails
+
+
+def fixture_rename_stream(ctx, names=("create-formulas.numbers",)):
+    """Implementation only (metamorphic), on a document written by Numbers whose references use every qualifier form:
+    after a sheet or a table is renamed through the API, the printed formulas equal those printed after a forced
+    refresh of the name cache."""
+    from numbers_parser import Document
+    fails = []
+
+    def all_formulas(doc):
+        out = {}
+        for si, sh in enumerate(doc.sheets):
+            for ti, tb in enumerate(sh.tables):
+                for row in tb.iter_rows():
+                    for c in row:
+                        try:
+                            f = c.formula
+                        except Exception as e:  # noqa: BLE001
+                            f = "!" + type(e).__name__
+                        if f is not None:
+                            out[(si, ti, c.row, c.col)] = f
+        return out
+
+    for name in names:
+        p = common.REPO / "tests" / "data" / name
+        if not p.exists():
+            continue
+        with warnings.catch_warnings():
+            warnings.simplefilter("ignore")
+            probe = Document(str(p))
+            targets = [("sheet", si, None) for si in range(len(probe.sheets))] + \
+                      [("table", si, ti) for si, sh in enumerate(probe.sheets) for ti in range(len(sh.tables))][:8]
+            for kind, si, ti in targets:
+                doc = Document(str(p))
+                all_formulas(doc)                      # fills every cache in the original state
+                if kind == "sheet":
+                    doc.sheets[si].name = doc.sheets[si].name + " (renamed)"
+                else:
+                    doc.sheets[si].tables[ti].name = doc.sheets[si].tables[ti].name + " (renamed)"
+                stale = all_formulas(doc)
+                doc._model.name_ref_cache.mark_dirty()
+                fresh = all_formulas(doc)
+                ctx.count("fixture-renames", len(fresh))
+                bad = [k for k in fresh if stale.get(k) != fresh[k]]
+                if bad:
+                    k = bad[0]
+                    fails.append((f"stale-name-cache:fixture-{kind}-rename", {"fixture": name, "rename": [kind, si, ti], "cell": list(k)},
+                                  f"{name}: after renaming {kind} {si if ti is None else (si, ti)} cell {k} prints {stale.get(k)!r}; after a cache refresh {fresh[k]!r} ({len(bad)} cells)"))
     return fails
 
 
@@ -973,6 +1028,7 @@ def run(ctx: Ctx) -> int:
         resolver_stream(ctx, exe, recorded[::step])
     fails += edit_stream(ctx, pool, 12 if ctx.quick else 60)
     fails += resize_stream(ctx, pool, 12 if ctx.quick else 80)
+    fails += fixture_rename_stream(ctx)
     for sig, case, detail in fails:
         ctx.oracle_fail(sig, case, detail)
     return common.finish(ctx, search)
@@ -998,6 +1054,13 @@ def search(ctx: Ctx, broken) -> list:
 
 
 def check_case(pool, case):
+    if "rename" in case:
+        sub = common.Ctx("C09", "quick", 0, LEVEL)
+        try:
+            hits = [f for f in fixture_rename_stream(sub, (case["fixture"],)) if f[1]["rename"] == case["rename"]]
+        finally:
+            sub.cleanup()
+        return (hits[0][0], hits[0][2]) if hits else None
     cfg = case["cfg"]
     if "resize" in case:
         nd = denode(case["node"])
